@@ -239,6 +239,11 @@ def m_res_ok(ex, p, call, k):
     split_enum(ex, p, v, 'Result', RESULT, lambda q, n, pay: k(q, some(pay[0]) if n == 'Ok' else NONE), res_payload_ty(v))
 
 
+def m_res_err(ex, p, call, k):
+    v = call.args[0]
+    split_enum(ex, p, v, 'Result', RESULT, lambda q, n, pay: k(q, some(pay[0]) if n == 'Err' else NONE), res_payload_ty(v))
+
+
 def m_opt_asref(ex, p, call, k):
     v = call.args[0]
     inner = ex.deref(p, v) if isinstance(v, Ptr) else v
@@ -590,6 +595,7 @@ GLOBAL_MODELS = [
     (R(r'(Option|Result)::(map|map_err|and_then|unwrap_or_else|ok_or_else|or_else|filter)$'), m_opt_map),
     (R(r'Option::ok_or$'), m_ok_or),
     (R(r'Result::ok$'), m_res_ok),
+    (R(r'Result::err$'), m_res_err),
     (R(r'Option::(as_ref|as_mut|as_pin_mut|as_pin_ref|as_deref|as_deref_mut)$'), m_opt_asref),
     (R(r'Option::(cloned|copied)$'), m_opt_cloned),
     (R(r'Option::take$'), m_opt_take),
